@@ -93,6 +93,14 @@ theorem countP_le_one_of_unique {β : Type} : ∀ (Q : List β) (p : β → Bool
         (fun x hx y hy => h x (by simp [hx]) y (by simp [hy]))
       rw [if_neg hp]; omega
 
+/-- weight of a column of an incidence matrix = number of incident rows -/
+theorem cnt_col_incMat {α β : Type} (V : List α) (Q : List β) (inc : α → β → Bool) (q : Nat)
+    (hq : q < Q.length) :
+    cnt (incMat V Q inc).length (fun s => hb (incMat V Q inc) s q) =
+      V.countP (fun v => inc v Q[q]) := by
+  rw [incMat_length,
+    cnt_eq_countP V _ (fun v => inc v Q[q]) (fun i hi => hb_incMat V Q inc i q hi hq)]
+
 /-- **incidence matrices of simple 2-regular-column structures are closed graphs** -/
 theorem closedGraph_incMat {α β : Type} (V : List α) (Q : List β) (inc : α → β → Bool)
     (hV : V ≠ []) (hnd : V.Nodup)
